@@ -13,6 +13,14 @@ type C13Case struct {
 	// file content at that moment: "good" (hashes to Checksum) or "tampered" (good + 2 bytes).
 	Steps       []string `json:"steps,omitempty"`
 	CallerReset bool     `json:"callerReset,omitempty"` // the caller calls Hash.Reset() before each launch
+	// PathKind: how the command path names the file. "" = plain path. Otherwise two files exist, the one the
+	// checksum was computed from ("approved") and a tampered one (approved + 2 bytes), and the path reaches
+	// one of them in a way in which lexical and kernel path resolution differ or a symlink is involved:
+	//   dotdot-approved / dotdot-tampered   <dir>/a/link/../bin with a/link -> <dir>/b/sub: the kernel runs <dir>/b/bin,
+	//                                       a lexically cleaned path names <dir>/a/bin; the suffix says which file is at b/bin
+	//   symlink-approved / symlink-tampered the path is a symlink to the named file
+	//   relative-approved / relative-tampered  a relative path ("./bin", with Cmd.Dir unset, resolved against the host's cwd)
+	PathKind string `json:"pathKind,omitempty"`
 }
 
 type C13StepObs struct {
